@@ -25,7 +25,7 @@ LEVEL_NOTE = ('Table values from fixed + seed-derived alphabets. A request withi
 RULE = ("cases: (interpolator, n_ap, spacing, n_models, table unit); executions: one call per (request set, request unit), one evaluation per returned cell; non-trivial = distinct "
         "(case, request set, unit) with n_ap >= 2")
 ASSUMPTIONS = ["tables strictly increasing in aperture with ratio >= 1.05", "finite value alphabets"]
-REQUIRED_CLASSES = ['on-knot', 'inside-segment', 'beyond-table', 'below-refused', 'single-aperture-repeated', 'other-unit', 'bare-numbers', 'mixture', 'single-element',
+REQUIRED_CLASSES = ['history-interpolate-after-change', 'on-knot', 'inside-segment', 'beyond-table', 'below-refused', 'single-aperture-repeated', 'other-unit', 'bare-numbers', 'mixture', 'single-element',
                     'variable-at-filter-wavelength', 'variable-above-table', 'variable-on-largest-knot', 'conv', 'sed', 'sed-variable']
 TIMEOUT = {'quick': 300, 'thorough': 1200}
 
@@ -41,6 +41,8 @@ def setup(tier, seed):
                     out.append({'what': 'conv', 'n_ap': n_ap, 'spacing': spacing, 'n_models': n_models, 'tunit': tunit})
             for n_wav in ((3,) if tier == 'quick' else (2, 3, 7)):
                 out.append({'what': 'sed', 'n_ap': n_ap, 'spacing': spacing, 'n_wav': n_wav})
+                if n_ap in (1, 3, 4):
+                    out.append({'what': 'hist', 'n_ap': n_ap, 'spacing': spacing, 'depth': 3 if tier == 'quick' else 4})
                 out.append({'what': 'sedvar', 'n_ap': n_ap, 'spacing': spacing, 'n_wav': max(n_wav, 3)})
     return {'tier': tier, 'seed': seed, 'cases': out}
 
@@ -99,6 +101,8 @@ def run_case(ctx, case, rec, d):
         return _conv(ctx, case, rec)
     if case['what'] == 'sed':
         return _sed(ctx, case, rec)
+    if case['what'] == 'hist':
+        return _hist(ctx, case, rec)
     return _sedvar(ctx, case, rec)
 
 
@@ -310,3 +314,68 @@ def _sedvar(ctx, case, rec):
                     rec.violation('sedvar|value|%s' % kind, dict(sub, wavelength_index=j), {'got': got[j], 'aperture_au': a, 'table_au': ap, 'values_at_that_wavelength': vals[j]})
                     break
     rec.trace()
+
+
+HIST_OPS = ['interp', 'sort', 'new-flux', 'new-error', 'interp-other-unit']
+
+
+def _hist(ctx, case, rec):
+    """E2: every sequence of up to `depth` operations on ONE ConvolvedFluxes object; after every
+    operation an interpolation is compared with the reference model of the object's current content."""
+    import itertools
+    from astropy import units as u
+    from sedfitter.convolved_fluxes import ConvolvedFluxes
+    from mc.canon import canon
+    n_ap = case['n_ap']
+    n_models = 3
+    ap, flux0 = _table(ctx['seed'] + 5, n_ap, case['spacing'], n_models)
+    names0 = ['hm_b', 'hm_c', 'hm_a']
+    req = list(ap) + ([0.5 * (ap[0] + ap[1])] if n_ap > 1 else []) + [ap[-1] * 2.0]
+    seqs = [list(t) for L in range(1, case['depth'] + 1) for t in itertools.product(HIST_OPS, repeat=L) if t[-1].startswith('interp')]
+    seen = set()
+    for seq in seqs:
+        cf = ConvolvedFluxes(wavelength=2.2 * u.micron, model_names=np.array(names0), apertures=ap * u.au, flux=flux0 * u.mJy, error=flux0 * 0.1 * u.mJy)
+        model = {'names': list(names0), 'flux': flux0.copy(), 'err': flux0 * 0.1}
+        cf.interpolate(np.array(req) * u.au)           # a first query, so that anything remembered is populated
+        for step, op in enumerate(seq):
+            sub = {'seq': seq[:step + 1]}
+            try:
+                if op == 'sort':
+                    target = sorted(model['names']) if model['names'] != sorted(model['names']) else model['names'][::-1]
+                    cf.sort_to_match(np.array(target))
+                    idx = [model['names'].index(t) for t in target]
+                    model = {'names': target, 'flux': model['flux'][idx], 'err': model['err'][idx]}
+                    continue
+                if op == 'new-flux':
+                    model['flux'] = model['flux'][:, ::-1] * 1.5 + 0.25
+                    cf.flux = model['flux'] * u.mJy
+                    continue
+                if op == 'new-error':
+                    model['err'] = model['err'] * 3.0
+                    cf.error = model['err'] * u.mJy
+                    continue
+                q = (np.array(req) * u.au) if op == 'interp' else (np.array(req) * u.au).to(u.pc)
+                r = cf.interpolate(q)
+            except Exception as e:
+                rec.violation('history|exception', sub, {'type': type(e).__name__, 'msg': str(e)[:200]})
+                break
+            rec.ev()
+            rec.trans()
+            c = canon([cf.model_names, cf.flux, cf.error])
+            if c not in seen:
+                seen.add(c)
+                rec.state(('hist', n_ap, c))
+            ef = fitref.interp_aperture(ap, model['flux'], req)
+            ee = fitref.interp_aperture(ap, model['err'], req)
+            rec.outcome(tuple(np.round(ef[0], 6)))
+            if step > 0:
+                rec.cls('history-interpolate-after-change')
+            ok = ([str(x) for x in r.model_names] == model['names'] and np.allclose(r.flux.to(u.mJy).value, ef, rtol=1e-9) and np.allclose(r.error.to(u.mJy).value, ee, rtol=1e-9))
+            if not ok:
+                rec.violation('history|interpolate-after-%s' % (seq[step - 1] if step else 'nothing'), sub,
+                              {'problem': 'interpolation does not follow the current content of the object', 'names_now': model['names'], 'got_names': [str(x) for x in r.model_names],
+                               'got_flux_row0': r.flux.value[0], 'expected_row0': ef[0]})
+                break
+        rec.trace()
+        rec.nontriv(('hist', n_ap, case['spacing'], tuple(seq)))
+    rec.sample({'family': 'history on one ConvolvedFluxes', 'ops': HIST_OPS, 'n_sequences': len(seqs), 'example': seqs[-1]})
